@@ -13,11 +13,11 @@ CONSTANTS
   NeededAnswers = {TRUE, FALSE}
   AllowedAnswers = {TRUE, FALSE}
   CheckAnswers <- MCCheckSched
-  NextAnswers <- MCNextAllAbs
+  NextAnswers <- MCNextAll
   BackoffDraws = {0}
   ProgressSeqs <- MCProg0
   MaxChecks = 1
-  MaxCtl = 2
+  MaxCtl = 1
   CtlSources <- MCSrcBoth
   MaxRebootAsks = 2
   MaxCrashes = 0
@@ -30,5 +30,5 @@ CONSTANTS
   Bounded = TRUE
   Mut = "none"
 INVARIANT NoViolation
-INVARIANT PrintDone
+VIEW View
 CHECK_DEADLOCK FALSE
